@@ -108,6 +108,18 @@ impl SymbolTable {
         self.contexts.pop().unwrap().max_size()
     }
 
+    /// The number of symbols in the outermost scope of the global context
+    pub fn num_globals(&self) -> usize {
+        self.contexts[0].symbols[0].len()
+    }
+
+    /// Go back to the outermost scope of the global context and forget all globals but the first `num_globals`
+    pub fn rollback(&mut self, num_globals: usize) {
+        self.contexts.truncate(1);
+        self.contexts[0].symbols.truncate(1);
+        self.contexts[0].symbols[0].truncate(num_globals);
+    }
+
     /// Whether we are currently in the global context (so not inside any function)
     pub fn is_global_context(&self) -> bool {
         self.contexts.len() == 1
